@@ -4,18 +4,22 @@
 
   Model: EcModel/Dc.lean (hand translation of src/dc.rs, src/subdevice/ports.rs,
   `SubDevice::is_child_of`). Physical specification: EcModel/DcSpec.lean (`Tree`, `visit`,
-  `arrivals`, `trueParents`, `trueDownstream`; predicates `NoNestedJunction`, `NoJunction`, `NoWrap`,
-  `AllDc`, `Symmetric`). All theorems hold for both build modes (`m : Mode`) unless stated.
+  `arrivals`, `trueParents`, `trueDownstream`; predicates `NoJunction`, `NoWrap`, `AllDc`,
+  `Symmetric`). All theorems hold for both build modes (`m : Mode`) unless stated.
 
   KNOWN FINDINGS — clauses that are false of the unchanged code, each with a `_partial` theorem
   whose hypothesis excludes the class, and a `_counterexample`:
-   * nested junctions (c17/nested-junction-wrong-parent): `parent_is_true_parent_partial` needs
-     `NoNestedJunction`; `parent_is_true_parent_counterexample` (wrong parent, and — since the fix
-     below — `Err(Topology)` instead of a panic when the wrongly chosen junction is full).
    * 32-bit wrap between the port latches of one device (c17/port-time-wrap): both tree theorems
-     need `NoWrap`; `port_time_wrap_counterexample`.
+     need `NoWrap` (a hypothesis on the clocks, not on the shape of the tree);
+     `port_time_wrap_counterexample`.
    * a DC device behind a device without DC (c17/chain-delay-nondc-gap): `chain_delay_exact_partial`
      needs `DcContig`; `chain_delay_exact_counterexample`.
+  FIXED (was c17/nested-junction-wrong-parent): after a `LineEnd` the parent search now takes the
+  nearest earlier junction that still HAS A FREE DOWNSTREAM PORT (`Ports::has_free_downstream_port`);
+  before, it took the nearest junction even when full, and the device landed on that junction's own
+  entry port. `parent_is_true_parent` is now the full statement over EVERY tree of the specification
+  (any nesting of chains, forks and crosses; the former `_partial` needed `NoNestedJunction`); the
+  former counterexample trees are in `parent_is_true_parent_fixed`.
   FIXED (were c17/inconsistent-panic-topology, c17/inconsistent-panic-nofree, c17/nested-junction-panic):
   a DL status without any open port is rejected up front and a junction without a free port gives
   `Err(Error::Topology)`; `inconsistent_is_error` is now the full statement (no hypothesis on the
@@ -123,17 +127,27 @@ theorem chain_delay_exact_counterexample :
 
 /-! ### clause 3: derived from the true upstream neighbour -/
 
-/-- For every tree wired through port 0 in which no junction lies inside a non-last branch of
-    another junction, with any link / processing / forwarding delays, any clock offsets, any mix of
-    DC support (no 32-bit wrap inside a DC device): `assign_parent_relationships` succeeds, the
-    parent of every device is its physical upstream neighbour, and the downstream neighbour recorded
-    on each port is the device physically plugged into it. -/
-theorem parent_is_true_parent_partial (m : Mode) (T : Tree) (tin : Nat) (h : T.isNode = true)
-    (hn : NoNestedJunction T) (hw : NoWrap T tin) :
+/-- For EVERY tree wired through port 0 — any nesting of chains, forks and crosses, of any size and
+    depth — with any link / processing / forwarding delays, any clock offsets, any mix of DC support
+    (no 32-bit wrap inside a DC device, see c17/port-time-wrap): `assign_parent_relationships`
+    succeeds, the parent of every device is its physical upstream neighbour, and the downstream
+    neighbour recorded on each port is the device physically plugged into it.
+
+    Proof (Lemmas/DcTree `process_node`, `process_tree`): induction over the tree in frame order.
+    `Processes T` says: once the root of subtree `T` has been appended to ANY processed prefix,
+    running the loop over T's descendants yields exactly T's wiring and leaves the prefix untouched.
+    While a device's branches are processed one after the other, everything after it in the list is
+    the result of COMPLETED subtrees, all of whose devices are `Closed` (no junction among them has a
+    free downstream port: `expected_closed`, any shape), and ends in a line end; the device itself
+    still has a free downstream port while a later branch is to come (`rootPorts_free1/2`). So the
+    junctions with a free downstream port are exactly the ancestors of the next attachment point,
+    the nearest one is found, and its first free port in the order 3, 1, 2 is the physical one. -/
+theorem parent_is_true_parent (m : Mode) (T : Tree) (tin : Nat) (h : T.isNode = true)
+    (hw : NoWrap T tin) :
     ∃ out, assignParentRelationships m (mkDevs (visit T 0 tin).1) = .ok out ∧
       out.map (·.parent) = trueParents T 0 none ∧
       out.map Dev.downByNumber = trueDownstream T 0 := by
-  rcases assign_tree m T tin h hn hw with ⟨out, ho, hs⟩
+  rcases assign_tree m T tin h hw with ⟨out, ho, hs⟩
   refine ⟨out, ho, ?_, ?_⟩
   · rw [← expected_parents T 0 none, ← hs]
     exact (map_of_shape _ shape_parent out).symm
@@ -147,17 +161,22 @@ def wT5 : Tree := .node ⟨2, 1000, 40, 40, 100⟩ wY wLeaf .none
 /-- ... and A.p2 → W. -/
 def wT6 : Tree := .node ⟨2, 1000, 40, 40, 100⟩ wY wLeaf wLeaf
 
-/-- Known finding c17/nested-junction-wrong-parent: Z (position 4)
-    is given parent 1 (= Y) although it hangs off A (position 0); with W the valid tree is rejected
-    with `Err(Topology)` (a panic before the fix) — on valid trees without any wrap (`NoNestedJunction` fails, everything else holds). -/
-theorem parent_is_true_parent_counterexample :
+/-- The former witnesses of c17/nested-junction-wrong-parent (before the fix Z, position 4, was given
+    parent 1 = Y on Y's own entry port although it hangs off A, position 0; with W the valid tree
+    was rejected with `Err(Topology)`, earlier a panic): the model of the repaired code returns the
+    physical parents and ports. Both trees have a junction inside a non-last branch of another
+    junction (`NoNestedJunction`, the hypothesis of the former `_partial` theorem, fails). -/
+theorem parent_is_true_parent_fixed :
     (match assignParentRelationships .checked (mkDevs (visit wT5 0 1000).1) with
       | .ok out => out.map (·.parent)
-      | _ => []) = [none, some 0, some 1, some 1, some 1] ∧
+      | _ => []) = [none, some 0, some 1, some 1, some 0] ∧
     trueParents wT5 0 none = [none, some 0, some 1, some 1, some 0] ∧
-    assignParentRelationships .checked (mkDevs (visit wT6 0 1000).1) = .err .topology ∧
+    (match assignParentRelationships .checked (mkDevs (visit wT6 0 1000).1) with
+      | .ok out => (out.map (·.parent), out.map Dev.downByNumber)
+      | _ => ([], [])) = (trueParents wT6 0 none, trueDownstream wT6 0) ∧
+    trueParents wT6 0 none = [none, some 0, some 1, some 1, some 0, some 0] ∧
     NoWrap wT5 1000 ∧ NoWrap wT6 1000 ∧ ¬ NoNestedJunction wT5 ∧ ¬ NoNestedJunction wT6 := by
-  refine ⟨by decide, by decide, by decide, ?_, ?_, ?_, ?_⟩
+  refine ⟨by decide, by decide, by decide, by decide, ?_, ?_, ?_, ?_⟩
   · simp [wT5, wY, wLeaf, NoWrap, visit, Tree.link, Tree.isNode, Tree.size, local32, U32]
   · simp [wT6, wY, wLeaf, NoWrap, visit, Tree.link, Tree.isNode, Tree.size, local32, U32]
   · simp [wT5, wY, wLeaf, NoNestedJunction, NoJunction, Tree.isNode]
@@ -302,12 +321,12 @@ theorem inconsistent_is_error_configure_dc (m : Mode) (now : Nat) (rs : List Rep
     configureDc m now rs ≠ (ws, .panic w) :=
   configureDc_no_panic m now rs ws w htimes hnow hrx
 
-/-- ... and for every valid tree without nested junctions (no wrap) there is no panic and no error
-    at all (restating `parent_is_true_parent_partial`). -/
+/-- ... and for every valid tree of any shape (no wrap) there is no panic and no error at all
+    (restating `parent_is_true_parent`). -/
 theorem valid_tree_no_panic (m : Mode) (T : Tree) (tin : Nat) (h : T.isNode = true)
-    (hn : NoNestedJunction T) (hw : NoWrap T tin) :
+    (hw : NoWrap T tin) :
     ∃ out, assignParentRelationships m (mkDevs (visit T 0 tin).1) = .ok out := by
-  rcases assign_tree m T tin h hn hw with ⟨out, ho, _⟩
+  rcases assign_tree m T tin h hw with ⟨out, ho, _⟩
   exact ⟨out, ho⟩
 
 /-- The former witnesses of c17/inconsistent-panic-topology (a device reporting no open port, as a DC
@@ -334,14 +353,33 @@ def eFork : Tree :=
   .node ⟨2, 123456, 40, 40, 0⟩ (.node ⟨0, 9, 35, 45, 150⟩ eLeaf .none .none)
     (.node ⟨3, 77, 50, 50, 200⟩ eLeaf eLeaf .none) .none
 
-/-- `eFork` satisfies every hypothesis of `parent_is_true_parent_partial`, and the result is the wiring. -/
-example : eFork.isNode = true ∧ NoNestedJunction eFork ∧ NoWrap eFork 1000 ∧
+/-- `eFork` satisfies every hypothesis of `parent_is_true_parent`, and the result is the wiring. -/
+example : eFork.isNode = true ∧ NoWrap eFork 1000 ∧
     (match assignParentRelationships .checked (mkDevs (visit eFork 0 1000).1) with
       | .ok out => out.map (·.parent)
       | _ => []) = [none, some 0, some 1, some 0, some 3, some 3] := by
-  refine ⟨rfl, ?_, ?_, by decide⟩
-  · simp [eFork, eLeaf, NoNestedJunction, NoJunction, Tree.isNode]
+  refine ⟨rfl, ?_, by decide⟩
   · simp [eFork, eLeaf, NoWrap, visit, Tree.link, Tree.isNode, Tree.size, local32, U32]
+
+/-- Junctions nested three deep, each inside a NON-last branch of the next: cross A; A.p3 → fork B;
+    B.p3 → fork C (on ports 3 and 2); C.p3 → leaf, C.p2 → leaf; B.p1 → leaf; A.p1 → passthrough →
+    leaf; A.p2 → leaf. Mixed DC. -/
+def eDeep : Tree :=
+  .node ⟨2, 123456, 40, 40, 0⟩
+    (.node ⟨3, 77, 50, 50, 200⟩ (.node ⟨2, 5, 40, 40, 100⟩ eLeaf .none eLeaf) eLeaf .none)
+    (.node ⟨0, 9, 35, 45, 150⟩ .none eLeaf .none)
+    eLeaf
+
+/-- `eDeep` satisfies every hypothesis of `parent_is_true_parent` (and not the one of the former
+    `_partial` theorem); parents and ports are the wiring. -/
+example : eDeep.isNode = true ∧ NoWrap eDeep 1000 ∧ ¬ NoNestedJunction eDeep ∧
+    (match assignParentRelationships .checked (mkDevs (visit eDeep 0 1000).1) with
+      | .ok out => (out.map (·.parent), out.map Dev.downByNumber)
+      | _ => ([], [])) = (trueParents eDeep 0 none, trueDownstream eDeep 0) ∧
+    trueParents eDeep 0 none = [none, some 0, some 1, some 2, some 2, some 1, some 0, some 6, some 0] := by
+  refine ⟨rfl, ?_, ?_, by decide, by decide⟩
+  · simp [eDeep, eLeaf, NoWrap, visit, Tree.link, Tree.isNode, Tree.size, local32, U32]
+  · simp [eDeep, eLeaf, NoNestedJunction, NoJunction, Tree.isNode]
 
 /-- A symmetric chain over mixed ports with a non-DC coupler first and a non-DC terminal last; the
     first DC device sits close to the 32-bit wrap. -/
